@@ -155,7 +155,9 @@ func getSubNode() *subNode {
 			panic(fmt.Sprintf("harness: node rejected the built chain: %v", err))
 		}
 		sn.node = node
-		pool := core.NewTxPool(core.DefaultTxPoolConfig, nc.Config, node.Chain)
+		poolCfg := core.DefaultTxPoolConfig
+		poolCfg.Journal = "" // no journal file in the working directory
+		pool := core.NewTxPool(poolCfg, nc.Config, node.Chain)
 		pm, err := aqua.NewProtocolManager(nc.Config, downloader.FullSync, networkID, new(event.TypeMux), pool, node.Engine, node.Chain, node.DB)
 		if err != nil {
 			panic(err)
@@ -923,16 +925,10 @@ var subClasses = []string{"valid", "valid", "valid", "valid", "valid", "valid", 
 // assigned codes are drawn more often than the unassigned ones
 var codePool = []uint64{1, 2, 3, 4, 5, 6, 7, 0x0d, 0x0e, 0x0f, 0x10, 1, 2, 3, 4, 5, 6, 7, 0x0d, 0x0e, 0x0f, 0x10, 0, 8, 9, 0x0a, 0x0b, 0x0c}
 
-func allocBoundSub(n int) uint64 {
-	if n < 1024 {
-		return allocSmall
-	}
-	return allocSubLarge
-}
 
 func TestSubprotoMessages(t *testing.T) {
 	sn := getSubNode()
-	ev.Check(t, ev.N(1800, 60_000), func(t *rapid.T) {
+	ev.Check(t, ev.N(1800, 48_000), func(t *rapid.T) {
 		protoIdx := rapid.IntRange(0, len(sn.pm.SubProtocols)-1).Draw(t, "proto")
 		var id discover.NodeID
 		copy(id[8:], rapid.SliceOfN(rapid.Byte(), 56, 56).Draw(t, "peerid"))
@@ -1027,7 +1023,7 @@ func TestSubprotoMessages(t *testing.T) {
 			code := rapid.SampledFrom(codePool).Draw(t, "code")
 			class := rapid.SampledFrom(subClasses).Draw(t, "class")
 			// (a value in the middle of the range: rapid favours the ends)
-			if rapid.IntRange(0, ev.Pick(250, 40)).Draw(t, "fetchsel") == 17 {
+			if rapid.IntRange(0, ev.Pick(250, 80)).Draw(t, "fetchsel") == 17 {
 				class, code = "announce-fetch", cNewBlockHashes
 			}
 			valid, aux := sn.validMessage(t, code, s)
@@ -1223,4 +1219,183 @@ func FuzzSubproto(f *testing.F) {
 		runSubCase(func(f string, a ...interface{}) { t.Fatalf(f, a...) },
 			subCase{Layer: "subproto", Code: uint64(code % 0x12), Class: "fuzz", Size: uint32(len(payload)), Payload: hex.EncodeToString(payload)})
 	})
+}
+
+// patternReader streams head followed by elem repeated count times.
+type patternReader struct {
+	head, elem []byte
+	count      int
+	pos        int
+}
+
+func (p *patternReader) size() int { return len(p.head) + p.count*len(p.elem) }
+
+func (p *patternReader) Read(b []byte) (int, error) {
+	n := 0
+	for n < len(b) {
+		if p.pos >= p.size() {
+			if n == 0 {
+				return 0, io.EOF
+			}
+			return n, nil
+		}
+		if p.pos < len(p.head) {
+			c := copy(b[n:], p.head[p.pos:])
+			n += c
+			p.pos += c
+			continue
+		}
+		off := (p.pos - len(p.head)) % len(p.elem)
+		c := copy(b[n:], p.elem[off:])
+		n += c
+		p.pos += c
+	}
+	return n, nil
+}
+
+// listOf builds a streaming RLP list of count copies of elem.
+func listOf(elem []byte, count int) *patternReader {
+	n := count * len(elem)
+	head := []byte{0xfa, byte(n >> 16), byte(n >> 8), byte(n)}
+	if n >= 1<<24 {
+		head = []byte{0xfb, byte(n >> 24), byte(n >> 16), byte(n >> 8), byte(n)}
+	}
+	return &patternReader{head: head, elem: elem, count: count}
+}
+
+const keyAmplify = "subproto/small-element-amplification"
+
+// allocBoundSub: 1 MiB for inputs below 1 KiB; otherwise 4 x the 10 MiB message
+// limit, or 8 x the bytes really received if that is more.
+func allocBoundSub(n int) uint64 {
+	if n < 1024 {
+		return allocSmall
+	}
+	if b := uint64(8 * n); b > allocSubLarge {
+		return b
+	}
+	return allocSubLarge
+}
+
+type sizeShape struct {
+	name    string
+	code    uint64
+	elem    []byte
+	amplify bool // a reply made of empty elements: the shape of the listed finding
+}
+
+var sizeShapes = []sizeShape{
+	{"nodedata-64B-blobs", cNodeData, append([]byte{0xb8, 0x40}, bytes.Repeat([]byte{0xab}, 64)...), false},
+	{"getnodedata-hashes", cGetNodeData, append([]byte{0xa0}, bytes.Repeat([]byte{0xcd}, 32)...), false},
+	{"getbodies-hashes", cGetBodies, append([]byte{0xa0}, bytes.Repeat([]byte{0xcd}, 32)...), false},
+	{"receipts-empty-lists", cReceipts, []byte{0xc0}, true},
+	{"bodies-empty", cBodies, []byte{0xc2, 0xc0, 0xc0}, true},
+	{"nodedata-empty-blobs", cNodeData, []byte{0x80}, true},
+}
+
+// sendShaped opens a session, sends count copies of elem as one list message
+// and reports (outcome of the liveness probe, Run's error, panic, bytes allocated, message size).
+func sendShaped(t *testing.T, sn *subNode, sh sizeShape, count int) (out string, runErr error, pn interface{}, alloc uint64, size int) {
+	pr := listOf(sh.elem, count)
+	size = pr.size()
+	var id discover.NodeID
+	binary.BigEndian.PutUint64(id[:8], atomic.AddUint64(&peerSeq, 1))
+	s := newSession(sn, 0, id)
+	defer s.close()
+	if out, _, pn := s.handshake(refrlp.Encode(sn.statusItem(s.version)), cStatus); out != "sent" {
+		t.Fatalf("valid status handshake failed: %s %v", out, pn)
+	}
+	if out, _, _ := s.probe(nil); out != "matched" {
+		t.Fatalf("fresh session does not serve: %s", out)
+	}
+	writeInflight(subCase{"subproto-size", sh.code, sh.name, uint32(size), ""})
+	alloc = memDelta(func() {
+		done := make(chan struct{})
+		go func() {
+			s.app.WriteMsg(p2p.Msg{Code: sh.code, Size: uint32(size), Payload: pr})
+			close(done)
+		}()
+		select {
+		case <-done:
+		case <-time.After(120 * time.Second):
+			out = "timeout"
+			return
+		}
+		out, runErr, pn = s.probe(nil)
+	})
+	return
+}
+
+// TestSubprotoSizeLimit sends well-formed messages made of very many small
+// elements: just above the 10 MiB limit (must be refused without being read),
+// and within it (must be handled without crashing, wedging or allocating out
+// of proportion to what was received).
+func TestSubprotoSizeLimit(t *testing.T) {
+	sn := getSubNode()
+	fail := failer(t)
+	judge := func(sh sizeShape, over bool, out string, runErr error, pn interface{}, alloc uint64, size int) {
+		switch {
+		case out == "panicked":
+			fail("Run panicked on %s (%d bytes): %v", sh.name, size, pn)
+		case out == "timeout":
+			fail("handler wedged on %s (%d bytes)", sh.name, size)
+		case over && out != "ended":
+			fail("well-formed %s message of %d bytes (> 10 MiB) was accepted", sh.name, size)
+		case over && alloc > allocSmall && !backgroundNoisy():
+			fail("refusing a %d-byte %s message allocated %d bytes", size, sh.name, alloc)
+		case out == "ended" && runErr == nil:
+			fail("Run returned nil")
+		}
+	}
+	// the fixed witness of the listed finding: 1 MiB of empty lists as a Receipts reply
+	{
+		sh := sizeShapes[3]
+		out, runErr, pn, alloc, size := sendShaped(t, sn, sh, 1<<20)
+		judge(sh, false, out, runErr, pn, alloc, size)
+		if alloc > allocBoundSub(size) {
+			if ev.Known(keyAmplify) {
+				ev.KnownFinding(keyAmplify)
+			} else if !backgroundNoisy() {
+				ev.SaveCase("TestSubprotoSizeLimit", subCase{"subproto-size", sh.code, sh.name, uint32(size), ""})
+				fail("a %d-byte Receipts message made of empty lists made the handler allocate %d bytes", size, alloc)
+			}
+		}
+		ev.Add("alloc_MiB_for_1MiB_"+sh.name, int64(alloc>>20))
+		ev.Case(true, []byte("sizelimit|witness"), "sizelimit:amplification-witness")
+	}
+	for _, sh := range sizeShapes {
+		// above the limit
+		count := (subMaxMsg + 1 + len(sh.elem)) / len(sh.elem)
+		out, runErr, pn, alloc, size := sendShaped(t, sn, sh, count)
+		if size <= subMaxMsg {
+			t.Fatalf("harness: size %d", size)
+		}
+		judge(sh, true, out, runErr, pn, alloc, size)
+		ev.Case(true, []byte("sizelimit|over|"+sh.name), "sizelimit:over-refused", "class:oversize")
+
+		// within the limit
+		if sh.amplify {
+			if ev.Known(keyAmplify) {
+				ev.Excluded(keyAmplify)
+				continue
+			}
+			if !ev.Thorough() || ev.Shard() != 0 {
+				count = (1 << 20) / len(sh.elem) // quick: 1 MiB instead of 10
+			} else {
+				count = (subMaxMsg - 8) / len(sh.elem)
+			}
+		} else {
+			if !ev.Thorough() && sh.name != "nodedata-64B-blobs" {
+				continue
+			}
+			count = (subMaxMsg - 8) / len(sh.elem)
+		}
+		out, runErr, pn, alloc, size = sendShaped(t, sn, sh, count)
+		judge(sh, false, out, runErr, pn, alloc, size)
+		if alloc > allocBoundSub(size) && !backgroundNoisy() {
+			fail("a %d-byte %s message made the handler allocate %d bytes", size, sh.name, alloc)
+		}
+		ev.Add("alloc_MiB_"+sh.name, int64(alloc>>20))
+		ev.Case(true, []byte("sizelimit|under|"+sh.name), "sizelimit:under")
+	}
 }
